@@ -578,6 +578,8 @@ func (op *ShellOperator) taskHandleHookRun(t task.Task) queue.TaskResult {
 				if len(combineResult.MonitorIDs) > 0 {
 					hookMeta.MonitorIDs = combineResult.MonitorIDs
 				}
+				// A failed run may be dropped only if every merged task allows failure.
+				hookMeta.AllowFailure = hookMeta.AllowFailure && combineResult.AllowFailure
 				t.UpdateMetadata(hookMeta)
 			}
 		}
